@@ -318,7 +318,7 @@ func init() {
 			{Pkg: mg, Func: "ZZ_C12_Restart", Desc: "with a mark and a tag referencing it", Quick: &Tier{Params: map[string]int{"realjobs": 1, "gates": 10, "marks": 1}, Samples: 10},
 				Bounds: "the same nine gates with two more acknowledged tags: mark/m (id list) and tag/viam = mark:m"},
 		},
-		Assumptions: []string{"FILE-FORMAT SLICE ONLY: a half-written index, snapshot or cache file is modelled as a prefix of the complete file (cut at a byte) or as the pre-Finalize content; completed system calls persist", "NOT covered: the state file (JSON via reflection), manager.New's directory scan and tag re-convergence after restart, crash points between individual system calls of a running service"},
-		Outside: []string{"restart of the whole service", "state.json", "torn writes / reordering below system-call level"},
+		Assumptions: []string{"restart scenarios: the directories a kill leaves are built from directory snapshots at job-level gates (the service loop parked, the job's completion received by the harness); the real manager.New starts from a copy; encoding/json is a typed whole-document codec in the engine (natively the real one), os.ReadDir over the modelled file system; fsnotify, permission probes, the two background workers and the connecting goroutine of pcap-over-ip endpoints are stubbed in the engine", "file formats: a half-written index, snapshot or cache file is modelled as a prefix of the complete file (cut at a byte) or as the pre-Finalize content; completed system calls persist"},
+		Outside: []string{"crash points below job granularity other than the half-written-file gates", "converter attachments across a restart", "torn writes / reordering below system-call level"},
 	}
 }
